@@ -176,7 +176,7 @@ pub fn run(cx: &Ctx) {
     cx.run_list(&Cov, fixed(), "doc examples and an offset triple");
     cx.label("generated");
     let big = cx.by(3000, 30000);
-    cx.run_pt(&Cov, cx.by(3000, 30000), cx.workers, move || pcase_strategy(3000, big), "n 1..=30000 (quick 3000), 4 correlation modes x independent placements x 5 ingestion paths x merge trees");
+    cx.run_pt(&Cov, cx.by(3000, 30000), cx.workers, move || pcase_strategy(3000, big), "n 1..=30000 (quick 3000), 4 correlation modes x independent placements x 11 ingestion paths (3 of them through iterators without a length) x merge trees");
 }
 
 pub fn replay(check: &str, case: &serde_json::Value) -> Option<Result<(), String>> {
